@@ -73,6 +73,9 @@ pub(crate) struct MemTable {
 	/// WAL number that was current when this memtable started receiving writes.
 	/// Used to determine which WALs can be safely deleted after flush.
 	wal_number: AtomicU64,
+	/// Oldest WAL segment a batch applied to this memtable was logged in
+	/// (u64::MAX while no batch carried one).
+	oldest_batch_wal_number: AtomicU64,
 }
 
 impl Default for MemTable {
@@ -90,6 +93,7 @@ impl MemTable {
 			skiplist,
 			latest_seq_num: AtomicU64::new(0),
 			wal_number: AtomicU64::new(0),
+			oldest_batch_wal_number: AtomicU64::new(u64::MAX),
 		}
 	}
 
@@ -98,6 +102,20 @@ impl MemTable {
 	/// to track which WAL contains its data.
 	pub(crate) fn set_wal_number(&self, wal_number: u64) {
 		self.wal_number.store(wal_number, Ordering::Release);
+	}
+
+	/// Records that this memtable received a batch whose log record sits in
+	/// segment `wal_number`. That can be an earlier segment than the one the
+	/// memtable was created for: the commit was logged before a rotation and
+	/// applied after it.
+	pub(crate) fn note_batch_wal_number(&self, wal_number: u64) {
+		self.oldest_batch_wal_number.fetch_min(wal_number, Ordering::AcqRel);
+	}
+
+	/// The oldest WAL segment holding a record of this memtable's contents:
+	/// it must be kept until the memtable has been flushed.
+	pub(crate) fn oldest_wal_number(&self) -> u64 {
+		self.get_wal_number().min(self.oldest_batch_wal_number.load(Ordering::Acquire))
 	}
 
 	/// Gets the WAL number associated with this memtable.
